@@ -107,7 +107,7 @@ func runLimit(l *c19Limit, scratch string, idx int, sr *run.ShardResult) (class,
 		val[0] = 'v'
 		val[l.ValLen-1] = 'w'
 	}
-	b, err := e.Coll.NewBatch(3, l.KeyLen+l.ValLen+64)
+	b, err := e.Coll.NewBatch(4, l.KeyLen+l.ValLen+64)
 	if err != nil {
 		return "harness", err.Error()
 	}
@@ -116,6 +116,7 @@ func runLimit(l *c19Limit, scratch string, idx int, sr *run.ShardResult) (class,
 		return "harness", err.Error()
 	}
 	var opErr error
+	var allocNeighbour []byte
 	switch l.Op {
 	case "set":
 		opErr = b.Set(key, val)
@@ -136,6 +137,15 @@ func runLimit(l *c19Limit, scratch string, idx int, sr *run.ShardResult) (class,
 		}
 		copy(buf, key)
 		copy(buf[l.KeyLen:], val)
+		// a neighbour carved out before the entry under test is registered
+		// (and registered after it): a rejected entry must not take the
+		// neighbour's bytes with it
+		nb, aerr := b.Alloc(len("allocnb") + 1)
+		if aerr != nil {
+			return "harness", "Alloc: " + aerr.Error()
+		}
+		copy(nb, "allocnb3")
+		allocNeighbour = nb
 		switch l.Op {
 		case "allocset":
 			opErr = b.AllocSet(buf[:l.KeyLen], buf[l.KeyLen:])
@@ -143,6 +153,11 @@ func runLimit(l *c19Limit, scratch string, idx int, sr *run.ShardResult) (class,
 			opErr = b.AllocMerge(buf[:l.KeyLen], buf[l.KeyLen:])
 		case "allocdel":
 			opErr = b.AllocDel(buf[:l.KeyLen])
+		}
+	}
+	if allocNeighbour != nil {
+		if err := b.AllocSet(allocNeighbour[:7], allocNeighbour[7:]); err != nil {
+			return "limit-neighbour-rejected", fmt.Sprintf("AllocSet of a small neighbour entry after %s (key length %d, value length %d) returned %v", l.Op, l.KeyLen, l.ValLen, err)
 		}
 	}
 	if err := b.Set([]byte("after"), []byte("2")); err != nil {
@@ -164,6 +179,9 @@ func runLimit(l *c19Limit, scratch string, idx int, sr *run.ShardResult) (class,
 	want := model.New()
 	want.KV["before"] = []byte("1")
 	want.KV["after"] = []byte("2")
+	if allocNeighbour != nil {
+		want.KV["allocnb"] = []byte("3")
+	}
 	if wantErr == nil {
 		switch l.Op {
 		case "set", "allocset":
@@ -189,7 +207,7 @@ func runLimit(l *c19Limit, scratch string, idx int, sr *run.ShardResult) (class,
 			}
 			return "limit-content/" + m.Kind, fmt.Sprintf("%s: key length %d value length %d: %s", stage, l.KeyLen, l.ValLen, mm.String())
 		}
-		for _, k := range []string{"before", "after", string(key)} {
+		for _, k := range []string{"before", "after", "allocnb", string(key)} {
 			v, err := s.Get([]byte(k), moss.ReadOptions{})
 			if err != nil {
 				return "get-error", err.Error()
